@@ -803,6 +803,13 @@ package node
 //@   ensures result == typeOfDef(self)
 
 //@ macro cmpOK(a val.Value, b val.Value) bool = a != nil && b != nil && ordered(a) && sameDyn(a, b) && notNaN(a) && notNaN(b) && enumRange(a) && enumRange(b)
+// an expression that is not a comparison is an error, never a crash
+//@ func (xp xpathImpl) resolveExpression(name string, e xpath.Expression, sel *Selection) (bool, error)
+//@   mode int
+//@   property C13 C16
+//@   requires wfS(sel) && wfSChain(sel) && !failed && dyn(sel.Path.Meta) == meta.HasDefinitions
+//@   requires dyn(e) == *xpath.Operator ==> e.(*xpath.Operator) != nil
+//@   ensures dyn(e) != *xpath.Operator ==> result1 != nil && !result0
 //@ func (xp xpathImpl) resolveOperator(oper *xpath.Operator, ident string, s *Selection) (bool, error)
 //@   mode int
 //@   property C16 C13
